@@ -14,4 +14,8 @@ CFG = dict(
     residue=["IEEE-754 rounding error of the same expressions (theorems are over ℝ); observed bit-for-bit against the model at Float, not proved",
              "RotationTo antiparallel branch (axis choice) is corresponded and oracle-checked, not proved"],
     assumptions=["float64 arithmetic in Go on amd64 is IEEE-754 without FMA contraction"],
+    manifest=dict(
+        text="Lean 4 theorems over ℝ about definitions regenerated from math/{mat,quaternion,trs,geometry} on every run (entrywise add, row-by-column product = Mathlib matrix product, identity/assoc/inverse laws, det = Matrix.det, quaternion composition/length/linearity, FromTheta unit, RotationTo maps a onto b, TRS = R(S∘v)+T, AABB encapsulate/closest-point containment); kernel-checked, axioms audited per theorem; the regenerated definitions are executed at Float and compared bit-for-bit with the Go functions, and the theorem predicates are evaluated on the Go functions' outputs.",
+        note="Trusted: Lean kernel; propext/Classical.choice/Quot.sound; translator go/xlate and its vector-library table; harness; Go toolchain. Not proved: IEEE rounding error; RotationTo antiparallel branch.",
+        technique="Lean 4 proof over a model regenerated from source (translator) + Float bit-exact correspondence"),
 )
